@@ -192,6 +192,7 @@ End CMLoop.
 Definition run_cq (n t : N) (input : list N) : list N :=
   match input with
   | _ :: nl :: r =>
+      if nl =? 0 then run_probe r else
       let nl' := N.max 1 (N.min nl 3) in
       let ls := links_of (N.to_nat nl') r in
       let r0 := skipn (7 * N.to_nat nl') r in
